@@ -34,7 +34,7 @@ SHRINK = {'C03': (60, 25), 'C02': (60, 40)}
 WALL_LIMIT = {('C03', 'quick'): 240, ('C03', 'thorough'): 3000, ('C02', 'quick'): 240, ('C02', 'thorough'): 240}      # one re-execution = ~20 forked crawls
 PROBES = {'C03': ['kill_points_total', 'kill_at_sql', 'kill_at_commit', 'kill_at_request', 'kill_at_delivery', 'kill_before_first_request',
                   'kill_with_in_progress_rows', 'kill_between_status_and_children', 'second_kill', 'resumed_runs', 'concurrency>1',
-                  'workload_fully_enumerated', 'run2_refetch_of_in_progress']}
+                  'workload_fully_enumerated', 'run2_refetch_of_in_progress', 'database_uri', 'sitemaps', 'sitemaps_skipped_start']}
 INFO = {'C03': {
     'rule': 'workload = generated site graph (as C01, depth unlimited) x concurrency 1..3 x schedule; per workload the kill instants '
             '(every SQL statement boundary, every commit boundary, every server request, every delivered segment) are enumerated '
@@ -170,9 +170,46 @@ def run(tape, prop, tier):
         # ---- workload
         opts = {'robots': False, 'recursive': True, 'level': 'inf', 'page_requisites': tape.chance(1, 2, 'opt.p'),
                 'span_hosts': False}
+        if tape.chance(1, 4, 'opt.database_uri'):
+            opts['database_uri'] = True
+            r.probes['database_uri'] += 1
         nhosts = tape.choice((1, 2), 'site.nhosts')
         site, starts, pages, assets, redirects = refsite.gen_site(tape, nhosts=nhosts, npages=tape.between(3, 7, 'site.npages'),
                                                                  with_redirects=tape.chance(1, 3, 'site.redirects'))
+        sitemaps = prop == 'C03' and tape.chance(1, 4, 'opt.sitemaps')
+        if sitemaps:
+            # --sitemaps: every start URL queues /robots.txt and /sitemap.xml of its host BEFORE it is fetched; pages that
+            # are reachable only through the sitemap, and a start URL that ends 'skipped' (it redirects to a rejected
+            # target) while it already carries those two children
+            r.probes['sitemaps'] += 1
+            opts['sitemaps'] = True
+            opts['reject_regex'] = '/private/'
+            main = starts[0].origin
+            orphans = []
+            for i in range(tape.between(1, 2, 'sm.orphans')):
+                o = site.add(main, '/orphan/o%d.html' % i, 'page')
+                dst = pages[tape.draw(len(pages), 'sm.orphan.link')]
+                o.links.append((dst, dst.url))
+                orphans.append(o)
+            rb = site.add(main, '/robots.txt', 'robots')
+            rb.body = ('User-agent: *\nDisallow:\nSitemap: %s/sitemap.xml\n' % main.prefix).encode()
+            rb.content_type = 'text/plain'
+            sm = site.add(main, '/sitemap.xml', 'sitemap')
+            locs = [o.url for o in orphans] + [pages[tape.draw(len(pages), 'sm.loc')].url]
+            sm.body = ('<?xml version="1.0" encoding="UTF-8"?>\n<urlset xmlns="http://www.sitemaps.org/schemas/sitemap/0.9">\n%s</urlset>\n'
+                       % ''.join('<url><loc>%s</loc></url>\n' % u for u in locs)).encode()
+            sm.content_type = 'application/xml'
+            if tape.chance(2, 3, 'sm.skipped_start'):
+                priv = site.add(main, '/private/home', 'page')
+                go = site.add(main, '/go', 'redirect')
+                go.redirect_to = priv
+                go.redirect_spelling = priv.url
+                go.redirect_code = tape.choice((302, 301, 307), 'sm.go.code')
+                if tape.chance(1, 2, 'sm.only_start'):
+                    starts = [go]          # then everything hangs on the children of the skipped item
+                else:
+                    starts = [go] + list(starts) if tape.chance(1, 2, 'sm.go.first') else list(starts) + [go]
+                r.probes['sitemaps_skipped_start'] += 1
         site.finalize()
         concurrency = tape.choice((1, 2, 3), 'concurrency')
         if concurrency > 1:
@@ -182,7 +219,10 @@ def run(tape, prop, tier):
         ksel = [tape.draw(1 << 16, 'kill.sel') for _ in range(8)]
         second_kill = tape.chance(1, 4, 'second_kill')
         own = sorted({s.origin.host for s in starts})
-        ref_rows, expected = crawl.reference_crawl(site, starts, opts, own)
+        if sitemaps:
+            ref_rows, expected = {}, []      # no sitemap model: the uninterrupted run of the same command is the reference (c')
+        else:
+            ref_rows, expected = crawl.reference_crawl(site, starts, opts, own)
 
         def sandbox_for(name):
             d = os.path.join(base, name)
@@ -317,6 +357,11 @@ def run(tape, prop, tier):
                         r.probes['kill_between_status_and_children'] += 1
                     r.violate(P, 'url-lost', sig, '%s: %s is requested by an uninterrupted crawl but by neither run; at the kill its parent %s was %r and it had %s'
                               % (where, u, rec['parent'] and rec['parent']['url'], parent_status, 'a row' if has_row1 else 'no row'))
+            # (c') ... literally: whatever run 0 (the same command, never killed) requested is requested by the runs together
+            for u in sorted({canon(e['url']) for e in req0}):
+                if u not in all_req:
+                    r.violate(P, 'url-lost', 'vs-uninterrupted-run:' + kind, '%s: %s was requested by the uninterrupted run of the same command but by neither run; rows after the kill: %r'
+                              % (where, u, [(x['url'], x['status']) for x in rows1][:12]))
             # C02 on the resumed history: scope must not widen after a resume
             fake_out = {'server': _FakeServer(req_after)}
             crawl.judge_c02(r, site, starts, opts, fake_out, final_rows, own_hosts=own, phase=' [resumed run after %s]' % where)
@@ -325,7 +370,7 @@ def run(tape, prop, tier):
                 r.probes['run2_refetch_of_in_progress'] += 1
             shutil.rmtree(sb, ignore_errors=True)
         r.workload = workload
-        r.nontrivial = len(expected) >= 4 and landed_in_progress
+        r.nontrivial = (len(expected) >= 4 or sitemaps) and landed_in_progress
         r.sample = {'workload': workload, 'kinds_head': kinds[:60], 'violations': [v.cls + ':' + v.sig for v in r.violations][:6]}
         r.log('instants=%d positions=%r' % (N, positions if len(positions) < 40 else len(positions)))
     finally:
